@@ -140,6 +140,69 @@ Theorem C01_roundtrip_rotating : forall c e, ekind e = KRotating -> wf c e = tru
 Proof. exact (roundtrip_of_kind KRotating). Qed.
 Theorem C01_roundtrip_equation_set : forall c e, ekind e = KEqSet -> wf c e = true -> dec c KEqSet (enc e) = Some (view e).
 Proof. exact (roundtrip_of_kind KEqSet). Qed.
+(* tranche 3 *)
+Theorem C01_roundtrip_particle_zone : forall c e, ekind e = KPZone -> wf c e = true -> dec c KPZone (enc e) = Some (view e).
+Proof. exact (roundtrip_of_kind KPZone). Qed.
+Theorem C01_roundtrip_particle_coordinates : forall c e, ekind e = KPCoor -> wf c e = true -> dec c KPCoor (enc e) = Some (view e).
+Proof. exact (roundtrip_of_kind KPCoor). Qed.
+Theorem C01_roundtrip_particle_solution : forall c e, ekind e = KPSol -> wf c e = true -> dec c KPSol (enc e) = Some (view e).
+Proof. exact (roundtrip_of_kind KPSol). Qed.
+Theorem C01_roundtrip_particle_iterative : forall c e, ekind e = KPIter -> wf c e = true -> dec c KPIter (enc e) = Some (view e).
+Proof. exact (roundtrip_of_kind KPIter). Qed.
+Theorem C01_roundtrip_particle_equation_set : forall c e, ekind e = KPEqSet -> wf c e = true -> dec c KPEqSet (enc e) = Some (view e).
+Proof. exact (roundtrip_of_kind KPEqSet). Qed.
+Theorem C01_roundtrip_particle_governing : forall c e, ekind e = KPGoverning -> wf c e = true -> dec c KPGoverning (enc e) = Some (view e).
+Proof. exact (roundtrip_of_kind KPGoverning). Qed.
+Theorem C01_roundtrip_particle_collision_model : forall c e, ekind e = KPModColl -> wf c e = true -> dec c KPModColl (enc e) = Some (view e).
+Proof. exact (roundtrip_of_kind KPModColl). Qed.
+Theorem C01_roundtrip_particle_breakup_model : forall c e, ekind e = KPModBreak -> wf c e = true -> dec c KPModBreak (enc e) = Some (view e).
+Proof. exact (roundtrip_of_kind KPModBreak). Qed.
+Theorem C01_roundtrip_particle_force_model : forall c e, ekind e = KPModForce -> wf c e = true -> dec c KPModForce (enc e) = Some (view e).
+Proof. exact (roundtrip_of_kind KPModForce). Qed.
+Theorem C01_roundtrip_particle_wall_model : forall c e, ekind e = KPModWall -> wf c e = true -> dec c KPModWall (enc e) = Some (view e).
+Proof. exact (roundtrip_of_kind KPModWall). Qed.
+Theorem C01_roundtrip_particle_phase_change_model : forall c e, ekind e = KPModPhase -> wf c e = true -> dec c KPModPhase (enc e) = Some (view e).
+Proof. exact (roundtrip_of_kind KPModPhase). Qed.
+Theorem C01_roundtrip_zone_subregion : forall c e, ekind e = KSubReg -> wf c e = true -> dec c KSubReg (enc e) = Some (view e).
+Proof. exact (roundtrip_of_kind KSubReg). Qed.
+Theorem C01_roundtrip_bc_property : forall c e, ekind e = KBProp -> wf c e = true -> dec c KBProp (enc e) = Some (view e).
+Proof. exact (roundtrip_of_kind KBProp). Qed.
+Theorem C01_roundtrip_wall_function : forall c e, ekind e = KWallFn -> wf c e = true -> dec c KWallFn (enc e) = Some (view e).
+Proof. exact (roundtrip_of_kind KWallFn). Qed.
+Theorem C01_roundtrip_area : forall c e, ekind e = KArea -> wf c e = true -> dec c KArea (enc e) = Some (view e).
+Proof. exact (roundtrip_of_kind KArea). Qed.
+Theorem C01_roundtrip_connectivity_property : forall c e, ekind e = KCProp -> wf c e = true -> dec c KCProp (enc e) = Some (view e).
+Proof. exact (roundtrip_of_kind KCProp). Qed.
+Theorem C01_roundtrip_periodic : forall c e, ekind e = KPeriodic -> wf c e = true -> dec c KPeriodic (enc e) = Some (view e).
+Proof. exact (roundtrip_of_kind KPeriodic). Qed.
+Theorem C01_roundtrip_average_interface : forall c e, ekind e = KAverage -> wf c e = true -> dec c KAverage (enc e) = Some (view e).
+Proof. exact (roundtrip_of_kind KAverage). Qed.
+Theorem C01_roundtrip_gas_model : forall c e, ekind e = KModGas -> wf c e = true -> dec c KModGas (enc e) = Some (view e).
+Proof. exact (roundtrip_of_kind KModGas). Qed.
+Theorem C01_roundtrip_viscosity_model : forall c e, ekind e = KModVisc -> wf c e = true -> dec c KModVisc (enc e) = Some (view e).
+Proof. exact (roundtrip_of_kind KModVisc). Qed.
+Theorem C01_roundtrip_thermal_conductivity_model : forall c e, ekind e = KModCond -> wf c e = true -> dec c KModCond (enc e) = Some (view e).
+Proof. exact (roundtrip_of_kind KModCond). Qed.
+Theorem C01_roundtrip_turbulence_closure : forall c e, ekind e = KModClosure -> wf c e = true -> dec c KModClosure (enc e) = Some (view e).
+Proof. exact (roundtrip_of_kind KModClosure). Qed.
+Theorem C01_roundtrip_turbulence_model : forall c e, ekind e = KModTurb -> wf c e = true -> dec c KModTurb (enc e) = Some (view e).
+Proof. exact (roundtrip_of_kind KModTurb). Qed.
+Theorem C01_roundtrip_thermal_relaxation_model : forall c e, ekind e = KModRelax -> wf c e = true -> dec c KModRelax (enc e) = Some (view e).
+Proof. exact (roundtrip_of_kind KModRelax). Qed.
+Theorem C01_roundtrip_chemical_kinetics_model : forall c e, ekind e = KModChem -> wf c e = true -> dec c KModChem (enc e) = Some (view e).
+Proof. exact (roundtrip_of_kind KModChem). Qed.
+Theorem C01_roundtrip_em_electric_field_model : forall c e, ekind e = KModEMElec -> wf c e = true -> dec c KModEMElec (enc e) = Some (view e).
+Proof. exact (roundtrip_of_kind KModEMElec). Qed.
+Theorem C01_roundtrip_em_magnetic_field_model : forall c e, ekind e = KModEMMagn -> wf c e = true -> dec c KModEMMagn (enc e) = Some (view e).
+Proof. exact (roundtrip_of_kind KModEMMagn). Qed.
+Theorem C01_roundtrip_em_conductivity_model : forall c e, ekind e = KModEMCond -> wf c e = true -> dec c KModEMCond (enc e) = Some (view e).
+Proof. exact (roundtrip_of_kind KModEMCond). Qed.
+Theorem C01_roundtrip_diffusion_model : forall c e, ekind e = KDiffusion -> wf c e = true -> dec c KDiffusion (enc e) = Some (view e).
+Proof. exact (roundtrip_of_kind KDiffusion). Qed.
+Theorem C01_roundtrip_family_bc_dataset : forall c e, ekind e = KFamBCDataSet -> wf c e = true -> dec c KFamBCDataSet (enc e) = Some (view e).
+Proof. exact (roundtrip_of_kind KFamBCDataSet). Qed.
+Theorem C01_roundtrip_additional_family_name : forall c e, ekind e = KAddFamName -> wf c e = true -> dec c KAddFamName (enc e) = Some (view e).
+Proof. exact (roundtrip_of_kind KAddFamName). Qed.
 Print Assumptions C01_roundtrip_zone.
 
 (* the whole file, for EVERY sequence of write calls (any mix and order of kinds) the session accepts: what cg_open
@@ -190,6 +253,15 @@ Theorem C01_complex_array_refuted :
 Proof. exact complex_array_refuted. Qed.
 Print Assumptions C01_complex_array_refuted.
 
+(* likewise for a point-set solution at a location without zone-wide data size (FaceCenter in a 3-D base), as long as
+   cgi_read_sol calls cgi_datasize before it looks for the point set (a fact the translator reads off the source) *)
+Theorem C01_ptset_location_refuted :
+  if datasize_first (s "cgi_read_sol") then
+    exists root idxs, run root0 face_ptset_witness = Some (root, idxs) /\ read_file (enc root) = None
+  else True.
+Proof. exact ptset_location_refuted. Qed.
+Print Assumptions C01_ptset_location_refuted.
+
 (* ---- non-vacuity --------------------------------------------------------------------------------------------------------- *)
 Definition ex_calls : list call :=
   [mkCall F_base [] (s "Base") [3; 3] [] [];
@@ -204,6 +276,39 @@ Definition ex_calls : list call :=
 Example C01_nonvacuous :
   match run root0 ex_calls with
   | Some (root, idxs) => wf ctx0 root = true /\ idxs = [1; 1; 2; 1; 1; 1; 1; 1; 1] /\ read_file (enc root) = Some (view root)
+  | None => False
+  end.
+Proof. vm_compute. repeat split; reflexivity. Qed.
+
+(* tranche 3: particle zone with coordinates, point-set solution, equation set and model; zone sub-regions; BC property
+   (area, wall function); point-set flow solution; equation-set model; family tree *)
+Definition ex3_calls : list call :=
+  [mkCall F_base [] (s "Base") [3; 3] [] [];
+   mkCall F_zone [(KBase, 1)] (s "Zone") [3; 8; 1; 0] [] [];
+   mkCall F_particle [(KBase, 1)] (s "Drops") [3] [] [];
+   mkCall F_particle_coord [(KBase, 1); (KPZone, 1)] (s "CoordinateX") [] [] [(dR4, [3], repeat 0 12)];
+   mkCall F_particle_sol_ptset [(KBase, 1); (KPZone, 1)] (s "Some") [2; 2; 1; 3] [] [];
+   mkCall F_particle_field [(KBase, 1); (KPZone, 1); (KPSol, 1)] (s "Radius") [] [] [(dR8, [2], repeat 7 16)];
+   mkCall F_particle_equationset [(KBase, 1); (KPZone, 1)] [] [3] [] [];
+   mkCall F_particle_model [(KBase, 1); (KPZone, 1); (KPEqSet, 1)] [] [1; 24] [] [];
+   mkCall F_subreg_ptset [(KBase, 1); (KZone, 1)] (s "Region") [2; 4; 2; 2; 5; 6] [] [];
+   mkCall F_subreg_bcname [(KBase, 1); (KZone, 1)] (s "OnWall") [2] [s "Wall"] [];
+   mkCall F_boco [(KBase, 1); (KZone, 1)] (s "Wall") [20; 4; 2; 1; 4] [] [];
+   mkCall F_bc_area [(KBase, 1); (KZone, 1); (KZoneBC, 1); (KBC, 1)] [] [2] [s "patch"] [(dR4, [1], [0; 0; 128; 63])];
+   mkCall F_bc_wallfunction [(KBase, 1); (KZone, 1); (KZoneBC, 1); (KBC, 1)] [] [2] [] [];
+   mkCall F_sol_ptset [(KBase, 1); (KZone, 1)] (s "OnCells") [3; 4; 2; 1; 1] [] [];
+   mkCall F_field [(KBase, 1); (KZone, 1); (KSol, 1)] (s "Pressure") [] [] [(dR4, [1], [1; 2; 3; 4])];
+   mkCall F_equationset [(KBase, 1)] [] [3] [] [];
+   mkCall F_model [(KBase, 1); (KEqSet, 1)] [] [4; 11] [] [];
+   mkCall F_family [(KBase, 1)] (s "Fam") [] [] [];
+   mkCall F_node_family [(KBase, 1); (KFamily, 1)] (s "Sub") [] [] [];
+   mkCall F_fambc [(KBase, 1); (KFamily, 1)] (s "FBC") [20] [] [];
+   mkCall F_bcdataset [(KBase, 1); (KFamily, 1); (KFamilyBC, 1)] (s "Set") [20; 2] [] []].
+Example C01_nonvacuous_tranche3 :
+  match run root0 ex3_calls with
+  | Some (root, idxs) =>
+      wf ctx0 root = true /\ idxs = [1; 1; 1; 1; 1; 1; 1; 1; 1; 2; 1; 1; 1; 1; 1; 1; 1; 1; 1; 1; 1] /\
+      read_file (enc root) = Some (view root)
   | None => False
   end.
 Proof. vm_compute. repeat split; reflexivity. Qed.
